@@ -1342,6 +1342,280 @@ Theorem hash_ztuple_fast_eq l : hash_ztuple_fast l = hash_ztuple l.
 Proof. apply tuple_hash_lanes_fast_eq. Qed.
 
 (* ==================================================================================================== *)
+(* H3. what the linear hash set IS, independently of how _chains enumerates: for ANY duplicate-free list ps of
+       exactly the simple paths with lo..hi atoms (one orientation each) *)
+Lemma key_count_perm idf ord chs chs' k : Permutation chs chs' -> key_count idf ord chs k = key_count idf ord chs' k.
+Proof.
+  intro HP. unfold key_count. apply Permutation_length. apply Permutation_filter. apply Permutation_map. exact HP.
+Qed.
+
+Theorem linear_hash_list_exact (h : list Z -> Z) g lo hi nbp ps : wf_mol g = true -> 1 <= lo <= hi ->
+  NoDup ps -> (forall p, In p ps <-> simple_path g p /\ lo <= len_z p <= hi /\ canonical_dir p) ->
+  forall x, In x (linear_hash_list h g lo hi nbp) <->
+    exists k c, x = h (k ++ [c]) /\
+      0 <= c < Z.min (Z.of_nat (key_count (ident (atom_identifiers g)) (bond_order g) ps k)) (cap nbp).
+Proof.
+  intros Hwf Hr Hnd Hps x. unfold linear_hash_list, fragments, fragments_with. rewrite linear_hashes_In.
+  assert (HP : Permutation (chains g lo hi) ps).
+  { apply NoDup_Permutation; [apply (proj2 (chains_exact_any g lo hi Hwf)) | exact Hnd|].
+    intro p. rewrite (proj1 (chains_exact g lo hi p Hwf Hr)), Hps. tauto. }
+  split; intros [k [c [H1 H2]]]; exists k, c; (split; [exact H1|]);
+    [rewrite <- (key_count_perm _ _ _ _ k HP) | rewrite (key_count_perm _ _ _ _ k HP)]; exact H2.
+Qed.
+
+(* ==================================================================================================== *)
+(* H4. the Morgan dictionaries are the iterated neighbourhood identifiers of the requested radii *)
+Section MorganLevels.
+  Variable h : list Z -> Z.
+
+  (* identifiers after r refinement rounds *)
+  Fixpoint morgan_level (g : mol) (r : nat) : list (Z * Z) :=
+    match r with
+    | O => atom_identifiers g
+    | S r' => morgan_step h g (morgan_level g r')
+    end.
+
+  Lemma morgan_iter_levels g n : forall d,
+    morgan_iter h g n d = map (fun i => Nat.iter i (morgan_step h g) d) (seq 0 (S n)).
+  Proof.
+    induction n as [|n IH]; intro d; [reflexivity|].
+    change (morgan_iter h g (S n) d) with (d :: morgan_iter h g n (morgan_step h g d)).
+    rewrite IH. change (seq 0 (S (S n))) with (0%nat :: seq 1 (S n)). cbn [map Nat.iter]. f_equal.
+    rewrite <- seq_shift, map_map. apply map_ext. intro i.
+    clear. induction i as [|i IHi]; [reflexivity|].
+    change (Nat.iter (S i) (morgan_step h g) (morgan_step h g d)) with (morgan_step h g (Nat.iter i (morgan_step h g) (morgan_step h g d))).
+    rewrite IHi. reflexivity.
+  Qed.
+
+  Lemma morgan_level_iter g r : morgan_level g r = Nat.iter r (morgan_step h g) (atom_identifiers g).
+  Proof. induction r as [|r IH]; [reflexivity|]. cbn [morgan_level Nat.iter]. rewrite IH. reflexivity. Qed.
+
+  Lemma skipn_seq' n : forall a len, skipn n (seq a len) = seq (a + n) (len - n).
+  Proof.
+    induction n as [|n IH]; intros a len; [cbn; rewrite Nat.add_0_r, Nat.sub_0_r; reflexivity|].
+    destruct len as [|len]; [reflexivity|]. cbn [seq skipn]. rewrite IH. f_equal; lia.
+  Qed.
+
+  Lemma skipn_map'' {A B} (f : A -> B) n : forall l, skipn n (map f l) = map f (skipn n l).
+  Proof. induction n as [|n IH]; intros [|a l]; cbn; try reflexivity. apply IH. Qed.
+
+  (* min_radius < 1 or max_radius < min_radius: AssertionError; otherwise the dictionaries of rounds
+     min_radius-1 .. max_radius-1, in this order *)
+  Theorem morgan_hash_dict_levels g lo hi :
+    morgan_hash_dict h g lo hi =
+      if (lo <? 1) || (hi <? lo) then Err OtherError
+      else Ok (map (morgan_level g) (seq (Z.to_nat (lo - 1)) (Z.to_nat (hi - lo + 1)))).
+  Proof.
+    unfold morgan_hash_dict, morgan_hash_dict_with. destruct (lo <? 1) eqn:E1; [reflexivity|].
+    destruct (hi <? lo) eqn:E2; [reflexivity|]. cbn [orb]. apply Z.ltb_ge in E1, E2. f_equal.
+    rewrite morgan_iter_levels, map_length, seq_length, skipn_map'', skipn_seq'.
+    replace (S (Z.to_nat (hi - 1)) - Z.to_nat (hi - lo + 1))%nat with (Z.to_nat (lo - 1)) by lia.
+    replace (S (Z.to_nat (hi - 1)) - Z.to_nat (lo - 1))%nat with (Z.to_nat (hi - lo + 1)) by lia.
+    cbn [Nat.add]. apply map_ext. intro r. symmetry. apply morgan_level_iter.
+  Qed.
+
+  Lemma morgan_step_keys g d : keys (morgan_step h g d) = keys d.
+  Proof. unfold morgan_step, keys. rewrite map_map. reflexivity. Qed.
+
+  Lemma morgan_level_keys g r : keys (morgan_level g r) = ids g.
+  Proof.
+    induction r as [|r IH]; cbn [morgan_level].
+    - unfold atom_identifiers, keys, ids, keys. rewrite map_map. reflexivity.
+    - rewrite morgan_step_keys. exact IH.
+  Qed.
+
+  Lemma zget_map_val {V W} (f : Z -> V -> W) (d : list (Z * V)) k :
+    zget (map (fun it => (fst it, f (fst it) (snd it))) d) k = option_map (f k) (zget d k).
+  Proof.
+    induction d as [|[k' v] r IH]; cbn; [reflexivity|]. destruct (k =? k') eqn:E; [|exact IH].
+    apply Z.eqb_eq in E. subst. reflexivity.
+  Qed.
+
+  (* the identifier of atom a after r+1 rounds: the hash of its identifier after r rounds followed by the sorted
+     (bond order, neighbour identifier after r rounds) pairs of its neighbours *)
+  Theorem morgan_level_value g r a : In a (ids g) ->
+    ident (morgan_level g (S r)) a =
+      h (ident (morgan_level g r) a ::
+         flatten_pairs (sort_pairs (map (fun nb => (b_ord (snd nb), ident (morgan_level g r) (fst nb))) (nbrs g a)))).
+  Proof.
+    intro Ha. cbn [morgan_level]. unfold ident at 1. unfold morgan_step. rewrite zget_map_val.
+    rewrite <- (morgan_level_keys g r) in Ha. destruct (keys_zget _ _ Ha) as [v Hv]. rewrite Hv. cbn [option_map].
+    unfold morgan_atom, ident at 2. rewrite Hv. reflexivity.
+  Qed.
+
+  Theorem morgan_level_0 g a : ident (morgan_level g 0) a = ident (atom_identifiers g) a.
+  Proof. reflexivity. Qed.
+End MorganLevels.
+
+(* ==================================================================================================== *)
+(* H5. insertion order: a molecule whose atom dictionary and neighbour dictionaries hold the same items in another
+       order has the same linear hash set and the same Morgan identifiers *)
+Definition reordered (g g' : mol) : Prop :=
+  Permutation (m_atoms g) (m_atoms g') /\ forall n, Permutation (nbrs g n) (nbrs g' n).
+
+Lemma zget_In_iff {V} (d : list (Z * V)) k v : NoDup (keys d) -> (zget d k = Some v <-> In (k, v) d).
+Proof.
+  intro Hn. split; [apply zget_In|]. induction d as [|[k' v'] r IH]; cbn; [tauto|].
+  inversion Hn as [|? ? H1 H2]; subst. intros [H|H].
+  - inversion H; subst. rewrite Z.eqb_refl. reflexivity.
+  - destruct (k =? k') eqn:E; [|apply IH; assumption].
+    apply Z.eqb_eq in E. subst. exfalso. apply H1. apply (in_map fst) in H. exact H.
+Qed.
+
+Lemma zget_perm {V} (d d' : list (Z * V)) k : NoDup (keys d) -> Permutation d d' -> zget d k = zget d' k.
+Proof.
+  intros Hn HP.
+  assert (Hn' : NoDup (keys d')) by (eapply Permutation_NoDup; [apply Permutation_map; exact HP | exact Hn]).
+  destruct (zget d k) as [v|] eqn:E.
+  - symmetry. apply zget_In_iff; [exact Hn'|]. apply (Permutation_in _ HP). apply zget_In_iff; assumption.
+  - destruct (zget d' k) as [v'|] eqn:E'; [|reflexivity].
+    apply zget_In_iff in E'; [|exact Hn']. apply (Permutation_in _ (Permutation_sym HP)) in E'.
+    apply zget_In_iff in E'; [congruence | exact Hn].
+Qed.
+
+Lemma wf_mol_nbrs_NoDup g x : wf_mol g = true -> NoDup (keys (nbrs g x)).
+Proof.
+  unfold wf_mol. intro H. apply andb_prop in H. destruct H as [_ H3]. rewrite forallb_forall in H3.
+  unfold nbrs. destruct (zget (m_adj g) x) as [l|] eqn:El; [|constructor].
+  pose proof (H3 _ (zget_In _ _ _ El)) as Hl. cbn [fst snd] in Hl. apply andb_prop in Hl. destruct Hl as [Hl _].
+  apply nodup_z_NoDup. exact Hl.
+Qed.
+
+Lemma atom_identifiers_keys g : keys (atom_identifiers g) = ids g.
+Proof. unfold atom_identifiers, keys, ids, keys. rewrite map_map. reflexivity. Qed.
+
+Section Reordered.
+  Variables g g' : mol.
+  Hypothesis Hwf : wf_mol g = true.
+  Hypothesis Hwf' : wf_mol g' = true.
+  Hypothesis Hre : reordered g g'.
+
+  Lemma reordered_ids x : In x (ids g) <-> In x (ids g').
+  Proof.
+    destruct Hre as [HP _]. unfold ids, keys.
+    split; apply Permutation_in; [|apply Permutation_sym]; apply Permutation_map; exact HP.
+  Qed.
+
+  Lemma reordered_edge x y : edge g x y <-> edge g' x y.
+  Proof.
+    destruct Hre as [_ HP]. unfold edge, nbr_ids, keys.
+    split; apply Permutation_in; [|apply Permutation_sym]; apply Permutation_map; apply HP.
+  Qed.
+
+  Lemma reordered_ident x : ident (atom_identifiers g) x = ident (atom_identifiers g') x.
+  Proof.
+    unfold ident. rewrite (zget_perm (atom_identifiers g) (atom_identifiers g') x); [reflexivity| |].
+    - rewrite atom_identifiers_keys. apply (wf_mol_sym_closed g Hwf).
+    - unfold atom_identifiers. apply Permutation_map. apply Hre.
+  Qed.
+
+  Lemma reordered_bond_order x y : bond_order g x y = bond_order g' x y.
+  Proof.
+    unfold bond_order, bond_of. rewrite (zget_perm (nbrs g x) (nbrs g' x) y); [reflexivity| |].
+    - apply wf_mol_nbrs_NoDup. exact Hwf.
+    - apply Hre.
+  Qed.
+
+  Lemma frag_key_ext idf ord idf' ord' p :
+    (forall x, idf x = idf' x) -> (forall x y, ord x y = ord' x y) -> frag_key idf ord p = frag_key idf' ord' p.
+  Proof.
+    intros Hi Ho. unfold frag_key, frag_entry.
+    assert (E : frag_var idf ord p = frag_var idf' ord' p).
+    { destruct p as [|x r]; [reflexivity|]. cbn [frag_var]. rewrite Hi. f_equal.
+      revert x. induction r as [|y r IH]; intro x; [reflexivity|]. cbn [frag_tail]. rewrite Ho, Hi, IH. reflexivity. }
+    rewrite E. destruct (tuple_gtb (frag_var idf' ord' p) (rev (frag_var idf' ord' p))); reflexivity.
+  Qed.
+
+  Lemma chains_reordered lo hi : Permutation (chains g lo hi) (chains g' lo hi).
+  Proof.
+    apply NoDup_Permutation.
+    - apply (proj2 (chains_exact_any g lo hi Hwf)).
+    - apply (proj2 (chains_exact_any g' lo hi Hwf')).
+    - apply chains_insertion_order_free; [exact Hwf | exact Hwf' | apply reordered_ids | apply reordered_edge].
+  Qed.
+
+  Theorem linear_hash_list_reordered (h : list Z -> Z) lo hi nbp :
+    forall x, In x (linear_hash_list h g lo hi nbp) <-> In x (linear_hash_list h g' lo hi nbp).
+  Proof.
+    unfold linear_hash_list, fragments, fragments_with. apply linear_hashes_keys_perm.
+    rewrite (map_ext (frag_key (ident (atom_identifiers g')) (bond_order g'))
+                     (frag_key (ident (atom_identifiers g)) (bond_order g))).
+    - apply Permutation_map. apply chains_reordered.
+    - intro p. symmetry. apply frag_key_ext; [apply reordered_ident | apply reordered_bond_order].
+  Qed.
+
+  Theorem linear_bit_list_reordered (h : list Z -> Z) lo hi len nab nbp :
+    match linear_bit_list h g lo hi len nab nbp, linear_bit_list h g' lo hi len nab nbp with
+    | Ok bits, Ok bits' => forall b, In b bits <-> In b bits'
+    | Err e, Err e' => e = e'
+    | _, _ => False
+    end.
+  Proof.
+    unfold linear_bit_list.
+    destruct (bit_list len nab (linear_hash_list h g lo hi nbp)) as [bits|e] eqn:E1;
+    destruct (bit_list len nab (linear_hash_list h g' lo hi nbp)) as [bits'|e'] eqn:E2.
+    - intro b. rewrite (bit_list_In _ _ _ _ b E1), (bit_list_In _ _ _ _ b E2).
+      split; intros [t [Ht Hb]]; exists t; (split; [|exact Hb]); apply (linear_hash_list_reordered h lo hi nbp t); exact Ht.
+    - unfold bit_list in *. destruct (len <=? 0); discriminate.
+    - unfold bit_list in *. destruct (len <=? 0); discriminate.
+    - unfold bit_list in *. destruct (len <=? 0); congruence.
+  Qed.
+
+  Section MorganReordered.
+    Variable h : list Z -> Z.
+
+    Lemma morgan_level_reordered r :
+      Permutation (morgan_level h g r) (morgan_level h g' r).
+    Proof.
+      induction r as [|r IH]; cbn [morgan_level].
+      - unfold atom_identifiers. apply Permutation_map. apply Hre.
+      - unfold morgan_step at 2.
+        rewrite (map_ext (fun it => (fst it, morgan_atom h g' (morgan_level h g' r) (fst it) (snd it)))
+                         (fun it => (fst it, morgan_atom h g (morgan_level h g r) (fst it) (snd it)))).
+        + unfold morgan_step. apply Permutation_map. exact IH.
+        + intro it. f_equal. apply morgan_atom_neighbour_order.
+          * apply Permutation_sym. apply Hre.
+          * intro x. unfold ident. rewrite (zget_perm _ _ x (eq_ind_r (@NoDup Z) (proj1 (wf_mol_sym_closed g Hwf)) (morgan_level_keys h g r)) IH).
+            reflexivity.
+    Qed.
+
+    Lemma Permutation_flat_map_pw {A B} (f f' : A -> list B) l :
+      (forall a, Permutation (f a) (f' a)) -> Permutation (flat_map f l) (flat_map f' l).
+    Proof.
+      intro H. induction l as [|a l IH]; cbn [flat_map]; [constructor|]. apply Permutation_app; [apply H | exact IH].
+    Qed.
+
+    (* the Morgan hash collection of the reordered molecule is a rearrangement of the same values (same multiset,
+       hence the same set and the same folded bits); the error behaviour is the same *)
+    Theorem morgan_hash_list_reordered lo hi :
+      match morgan_hash_list h g lo hi, morgan_hash_list h g' lo hi with
+      | Ok l, Ok l' => Permutation l l'
+      | Err e, Err e' => e = e'
+      | _, _ => False
+      end.
+    Proof.
+      unfold morgan_hash_list. rewrite !morgan_hash_dict_levels.
+      destruct ((lo <? 1) || (hi <? lo)); [reflexivity|].
+      rewrite !flat_map_concat_map, !map_map, <- !flat_map_concat_map.
+      apply Permutation_flat_map_pw. intro r. apply Permutation_map. apply morgan_level_reordered.
+    Qed.
+
+    Theorem morgan_bit_list_reordered lo hi len nab :
+      match morgan_bit_list h g lo hi len nab, morgan_bit_list h g' lo hi len nab with
+      | Ok bits, Ok bits' => Permutation bits bits'
+      | Err e, Err e' => e = e'
+      | _, _ => False
+      end.
+    Proof.
+      unfold morgan_bit_list, bit_list_of. destruct (len <=? 0) eqn:El; [reflexivity|].
+      pose proof (morgan_hash_list_reordered lo hi) as H.
+      destruct (morgan_hash_list h g lo hi) as [l|e], (morgan_hash_list h g' lo hi) as [l'|e']; try exact H; try contradiction.
+      unfold bit_list. rewrite El. apply Permutation_flat_map. exact H.
+    Qed.
+  End MorganReordered.
+End Reordered.
+
+(* ==================================================================================================== *)
 (* I. non-vacuity: a concrete well-formed molecule (2-propanol, CC(C)O) on which the hypotheses hold and the
       functions return what chython returns *)
 Definition ex_atom (n : Z) : atom := mkAtom n None 0 false (Some 0) None.
@@ -1366,4 +1640,28 @@ Proof.
   split; [vm_compute; reflexivity|]. split; [vm_compute; reflexivity|]. split; [vm_compute; reflexivity|].
   split; [intros x y H; lia|]. split; [vm_compute; reflexivity|]. split; [vm_compute; reflexivity|].
   split; vm_compute; reflexivity.
+Qed.
+
+(* the same molecule with the atoms and the neighbours of atom 2 inserted in another order *)
+Definition ex_mol2 : mol :=
+  mkMol [(2, ex_atom 6); (1, ex_atom 6); (3, ex_atom 6); (4, ex_atom 8)]
+        [(2, [(3, ex_b1); (1, ex_b1); (4, ex_b1)]); (1, [(2, ex_b1)]); (3, [(2, ex_b1)]); (4, [(2, ex_b1)])].
+
+Lemma example_reordered :
+  wf_mol ex_mol = true /\ wf_mol ex_mol2 = true /\ reordered ex_mol ex_mol2 /\
+  m_atoms ex_mol <> m_atoms ex_mol2 /\ nbrs ex_mol 2 <> nbrs ex_mol2 2 /\
+  morgan_hash_list hash_ztuple ex_mol2 1 2 =
+    Ok [-3850700631077715909; -3850700631077715909; -3850700631077715909; 3311492739671872531;
+        -713217080876991613; 6744783386241714987; 6744783386241714987; -5079278463555148377] /\
+  morgan_level hash_ztuple ex_mol 1 =
+    [(1, 6744783386241714987); (2, -713217080876991613); (3, 6744783386241714987); (4, -5079278463555148377)].
+Proof.
+  split; [vm_compute; reflexivity|]. split; [vm_compute; reflexivity|]. split.
+  - split; [apply perm_swap|]. intro n.
+    destruct (n =? 1) eqn:E1; [apply Z.eqb_eq in E1; subst; vm_compute; apply Permutation_refl|].
+    destruct (n =? 2) eqn:E2; [apply Z.eqb_eq in E2; subst; vm_compute; apply perm_swap|].
+    destruct (n =? 3) eqn:E3; [apply Z.eqb_eq in E3; subst; vm_compute; apply Permutation_refl|].
+    destruct (n =? 4) eqn:E4; [apply Z.eqb_eq in E4; subst; vm_compute; apply Permutation_refl|].
+    unfold nbrs, ex_mol, ex_mol2. cbn [m_adj zget]. rewrite E1, E2, E3, E4. constructor.
+  - split; [discriminate|]. split; [vm_compute; discriminate|]. split; vm_compute; reflexivity.
 Qed.
